@@ -506,7 +506,10 @@ def readPaths : List (String × List Slot) := [
   ("cbuffer", [E "Cast" 1, E "Swizzle" 0, E "StructMember" 0]),
   ("texture", [E "Cast" 1, E "Swizzle" 0, E "Call" 2]),
   ("texarray", [E "Cast" 1, E "Swizzle" 0, E "Call" 2, E "ArraySubscript" 0]),
-  ("sampler", [E "Sequence" 0])
+  ("sampler", [E "Sequence" 0]),
+  -- exported since fix batch 2 (01558a2 `ConstantBuffer<const S>`, 4de3e6b `Texture2D<unorm float4>`): read like their plain forms
+  ("cbufferc", [E "Cast" 1, E "Swizzle" 0, E "StructMember" 0]),
+  ("textureu", [E "Cast" 1, E "Swizzle" 0, E "Call" 2])
 ]
 
 def placeOfCode (code : String) : Option Place :=
